@@ -286,9 +286,14 @@ func (p c16) Run(w *mon.Worker, idx int) mon.Result {
 		writeBack = true
 		res.Tags = append(res.Tags, "variable_then_delete")
 	}
-	rawText := ""
+	rawText, rawFmt := "", "yaml"
 	if !writeBack && !pair && r.IntN(12) == 0 {
-		switch r.IntN(3) {
+		switch r.IntN(4) {
+		case 3:
+			// the XML decoder builds its own node tree: repeated siblings, attributes, text split by a comment / CDATA
+			rawText, rawFmt = c16XMLDoc(r), "xml"
+			full = "."
+			res.Tags = append(res.Tags, "decoder:xml")
 		case 0:
 			// padding: a write beyond the end of a sequence creates the elements in between; they are where they are
 			if f.seq {
@@ -339,7 +344,7 @@ func (p c16) Run(w *mon.Worker, idx int) mon.Result {
 		var v *ref.V
 		var err error
 		if rawText != "" {
-			out, e1, pan := yqx.Eval(full+" | "+suffix, rawText, "yaml", "json")
+			out, e1, pan := yqx.Eval(full+" | "+suffix, rawText, rawFmt, "json")
 			err = e1
 			if pan != nil {
 				err = fmt.Errorf("panic: %s", pan.Sig())
@@ -601,5 +606,32 @@ func c16MergeDoc(r *rand.Rand) string {
 	if r.IntN(2) == 0 {
 		sb.WriteString("six:\n  - <<: [*n, *base]\n    k: 1\n  - *extra\n")
 	}
+	return sb.String()
+}
+
+
+func c16XMLDoc(r *rand.Rand) string {
+	var sb strings.Builder
+	sb.WriteString("<root>")
+	n := 2 + r.IntN(4)
+	for i := 0; i < n; i++ {
+		switch r.IntN(7) {
+		case 0:
+			fmt.Fprintf(&sb, "<note>one%d<!-- c -->two</note>", i)
+		case 1:
+			fmt.Fprintf(&sb, "<cd>pre<![CDATA[raw %d]]>post</cd>", i)
+		case 2:
+			fmt.Fprintf(&sb, "<item>%d</item><item>%d</item>", i, i+10)
+		case 3:
+			fmt.Fprintf(&sb, "<a k=\"v%d\">t</a>", i)
+		case 4:
+			fmt.Fprintf(&sb, "<m><x>%d</x><y><z>q</z></y></m>", i)
+		case 5:
+			fmt.Fprintf(&sb, "<rep><i>1</i></rep><other>o</other><rep><i>2</i></rep>")
+		default:
+			fmt.Fprintf(&sb, "<e%d/>", i)
+		}
+	}
+	sb.WriteString("</root>\n")
 	return sb.String()
 }
